@@ -7,6 +7,7 @@ import MidoModel.MidiFileState
 import MidoModel.Backend
 import MidoModel.Syx
 import MidoModel.PortsSeq
+import MidoModel.Socket
 /- Text protocol helpers for the driver: parsing requests, printing canonical results. -/
 namespace Mido
 
